@@ -1204,3 +1204,151 @@ class MermaidDefaultsPart:
 
 
 MERMAIDDEF = MermaidDefaultsPart()
+
+
+# ---------------------------------------------------------------------------------------------------------------------
+# SELFCHECK: Tree._self_check on the observed pointer-level state (healthy trees after histories, and hand-corrupted ones)
+# ---------------------------------------------------------------------------------------------------------------------
+SC_UNIV = ["s:a", "s:b", "s:c", "s:d", "i:7", "e:1", "e:2", "p:3", "s:e", "t:1,2"]
+#: corruptions of a real tree that the public API cannot produce; each aims at one assertion of _self_check
+CORRUPTIONS = ["none", "drop_reg", "stale_in_group", "other_in_group", "wrong_did", "drop_group", "no_tree", "unlink_child", "extra_reg",
+               "twice_in_list", "no_parent", "swap_groups"]
+
+
+class SelfCheckPart:
+    tag = "SELFCHECK"
+    case_module = "CaseMiscSelfCheck"
+    case_vo = "theories/Cases/CaseMiscSelfCheck.vo"
+    run_fn = "run_misc_selfcheck"
+    rule = ("Tree._self_check: seeded random trees up to 9 nodes with clones, reached through creation orders and mutation histories "
+            "(nav_hist), then left healthy or corrupted by hand in one of 11 ways (registry entry dropped / added, stale or foreign node "
+            "in a clone group, data_id changed behind the index, group dropped, _tree or _parent cleared, child unlinked or listed "
+            "twice, two nodes swapped between clone groups); the model evaluates the method on the OBSERVED pointers, registry and index; oracle: a healthy tree passes, a "
+            "corrupted one does not return True")
+
+    def descs(self, tier, rng):
+        for j in range(70 if tier == "quick" else 900):
+            n = rng.randint(2, 9)
+            shape = H.random_shape(rng, n, deep=rng.choice([0.2, 0.5, 0.8]))
+            def lab(sh):     # siblings carry different data; the same data may sit below different parents (clones)
+                ls = rng.sample(range(len(SC_UNIV)), len(sh))
+                return [[ls[q], None, f"d{ls[q]}", lab(t)] for q, t in enumerate(sh)]
+            nodes = lab(shape) if all(len(x) <= len(SC_UNIV) for x in [shape]) else []
+            yield dict(typed=False, univ=SC_UNIV, nodes=nodes, order_seed=rng.randrange(10 ** 6),
+                       hist=NH.random_hist(rng, n, len(SC_UNIV), False, rng.randint(0, 4)),
+                       corrupt=CORRUPTIONS[j % len(CORRUPTIONS)] if j % 3 else "none", pick=rng.randrange(1000))
+
+    def shrink_candidates(self, desc):
+        if desc.get("hist"):
+            yield dict(desc, hist=desc["hist"][:-1])
+
+    def run(self, desc) -> Case:
+        try:
+            tree, U, objs, _sh, _errors = NH.build_hist(desc)
+        except Exception:  # noqa: BLE001   (a sibling clash of the generated labelling)
+            tree, U, objs = Tree("T"), B.make_universe(desc["univ"]), []
+        root = tree._root
+        live = B.all_nodes(root)
+        stale_pool = [x for x in objs if x is not None and all(x is not y for y in live)]
+        k, pick = desc["corrupt"], desc["pick"]
+        applied = "none"
+        if live and k != "none":
+            n = live[pick % len(live)]
+            m = live[(pick // 7) % len(live)]
+            if k == "drop_reg":
+                del tree._node_by_id[n._node_id]
+            elif k == "stale_in_group" and stale_pool:
+                tree._nodes_by_data_id[n._data_id].append(stale_pool[0])
+            elif k == "other_in_group" and m is not n:
+                tree._nodes_by_data_id[n._data_id].append(m)
+            elif k == "wrong_did":
+                n._data_id = "zzz"
+            elif k == "drop_group":
+                del tree._nodes_by_data_id[n._data_id]
+            elif k == "no_tree":
+                n._tree = None
+            elif k == "unlink_child":
+                pc = n._parent._children
+                for i, x in enumerate(pc):
+                    if x is n:
+                        pc.pop(i)
+                        break
+                if not pc and n._parent is not root:
+                    n._parent._children = None
+            elif k == "extra_reg":
+                ghost = Tree("ghost").add("ghost")
+                tree._node_by_id[ghost._node_id] = ghost
+                stale_pool.append(ghost)
+            elif k == "twice_in_list":
+                n._parent._children.append(n)
+            elif k == "no_parent":
+                n._parent = None
+            elif k == "swap_groups" and n._data_id != m._data_id:
+                # n and m change places in the clone index: every count stays right, only `node._data_id == data_id` can notice
+                ga, gb = tree._nodes_by_data_id[n._data_id], tree._nodes_by_data_id[m._data_id]
+                ia = next(i for i, x in enumerate(ga) if x is n)
+                ib = next(i for i, x in enumerate(gb) if x is m)
+                ga[ia], gb[ib] = m, n
+            else:
+                k = "none"
+            applied = k
+        # ---- what the method does
+        try:
+            res = tree._self_check()
+            err = None
+        except RecursionError:
+            raise
+        except Exception as e:  # noqa: BLE001
+            res, err = None, e
+        passed = res is True
+        fail = None
+        if applied == "none" and not passed:
+            fail = f"_self_check fails on a tree reached through the public API: {type(err).__name__}: {err}"
+        elif applied != "none" and passed:
+            fail = f"_self_check returns True on a tree corrupted by {applied}"
+        # ---- observation of the pointer-level state (by identity; every object that is referenced from anywhere gets a number)
+        seen, order = {}, []
+
+        def num(x):
+            if x is root:
+                return 0
+            if id(x) not in seen:
+                seen[id(x)] = len(order) + 1
+                order.append(x)
+            return seen[id(x)]
+
+        def walk(x, depth=0):
+            num(x)
+            if depth < 50:
+                for c in (x._children or []):
+                    walk(c, depth + 1)
+
+        for c in (root._children or []):
+            walk(c)
+        for x in list(tree._node_by_id.values()) + [c for l in tree._nodes_by_data_id.values() for c in l]:
+            num(x)
+        i = 0
+        while i < len(order):          # parents / children of everything numbered so far
+            x = order[i]
+            i += 1
+            if x._parent is not None:
+                num(x._parent)
+            for c in (x._children or []):
+                num(c)
+
+        def did_of(x):
+            d = x._data_id
+            return H.coq_did(d) if isinstance(d, (int, str)) and not isinstance(d, bool) else "(DStr [0])"
+
+        rows = []
+        for x in order:
+            par = "None" if x._parent is None else f"(Some {num(x._parent)})"
+            rows.append(f"({num(x)}, ({par}, {H.coq_list(str(num(c)) for c in (x._children or []))}, {H.coq_bool(x._tree is tree)}, {did_of(x)}))")
+        idx = H.coq_list(f"({H.coq_did(d)}, {H.coq_list(str(num(c)) for c in l)})" for d, l in tree._nodes_by_data_id.items())
+        coq = (f"(SC {H.coq_list(rows)} {H.coq_list(str(num(c)) for c in (root._children or []))} "
+               f"{H.coq_list(str(num(x)) for x in tree._node_by_id.values())} {idx})")
+        return Case(desc=desc, coq_input=coq, impl_obs=passed, oracle_fail=("self_check: " + fail) if fail else None,
+                    nontrivial=len(live) >= 2, key=H.digest(desc), stats=dict(corruption=applied, passed=passed, nodes=len(live)))
+
+
+SELFCHECK = SelfCheckPart()
